@@ -24,6 +24,12 @@ def srt_time(rng, ms=None):
     h, r = divmod(ms, 3600000); m, r = divmod(r, 60000); s, r = divmod(r, 1000)
     return ("%03d" if (h > 99 or chance(rng, 0.05)) else "%02d") % h + ":%02d:%02d,%03d" % (m, s, r)
 
+def closer(rng, name):
+    """the end tag of <name>; one in eight is missing, doubled, of another name, in another case, or preceded by a stray one"""
+    if chance(rng, 0.875): return "</%s>" % name
+    return pick(rng, ["", "</%s></%s>" % (name, name), "</%s>" % pick(rng, ["b", "i", "u", "font", "ruby", "rt", "c", "v", "x"]), "</%s>" % name.upper(),
+                      "</%s></%s>" % (pick(rng, ["b", "i", "rt", "ruby"]), name), "</>"])
+
 def srt_text(rng, depth=0):
     out = []
     for _ in range(rng.randrange(1, 4)):
@@ -32,7 +38,7 @@ def srt_text(rng, depth=0):
         elif k < 0.8:
             t = pick(rng, ["b", "i", "u", "B", "bold", "italic", "underline", "font color=\"red\"", "font color=\"#ff00ff\"",
                            "font color=#00FF00AA", "font size=\"3\"", "font", "x", "c.red"])
-            out.append("<%s>%s</%s>" % (t, srt_text(rng, depth + 1), t.split()[0].split(".")[0]))
+            out.append("<%s>%s%s" % (t, srt_text(rng, depth + 1), closer(rng, t.split()[0].split(".")[0])))
         elif k < 0.9:
             t = pick(rng, ["bold", "italic", "underline", "b", "i"])
             out.append("{%s}%s{/%s}" % (t, srt_text(rng, depth + 1), t))
@@ -68,9 +74,12 @@ def vtt_text(rng, b, e, depth=0, ruby=True):
         if k < 0.4 or depth > 3: out.append(pick(rng, WORDS).replace("<", "&lt;").replace("&", "&amp;"))
         elif k < 0.75:
             t = pick(rng, ["b", "i", "u", "c", "c.red", "c.bg_blue.lime", "c.unknown", "v Bob", "v.loud Mary Ann", "lang en", "lang", "lang fr-CA", "b.x", "q"])
-            out.append("<%s>%s</%s>" % (t, vtt_text(rng, b, e, depth + 1, ruby), t.split()[0].split(".")[0]))
+            out.append("<%s>%s%s" % (t, vtt_text(rng, b, e, depth + 1, ruby), closer(rng, t.split()[0].split(".")[0])))
         elif k < 0.83 and ruby and depth == 0:
-            out.append("<ruby>%s<rt>%s</rt>%s</ruby>" % (pick(rng, WORDS[:6]), pick(rng, WORDS[:6]), pick(rng, ["", "", "b<rt>c</rt>"])))
+            out.append("<ruby>%s<rt>%s%s%s%s" % (pick(rng, WORDS[:6]), pick(rng, WORDS[:6]), pick(rng, ["</rt>", "</rt>", "</rt>", ""]), pick(rng, ["", "", "b<rt>c</rt>", "b<rt>c"]),
+                                                 closer(rng, "ruby")))
+        elif k < 0.85:
+            out.append(pick(rng, ["<rt>x</rt>", "<rt>", "</rt>", "</ruby>", "<rt.a b>y"]))
         elif k < 0.9:
             out.append("<%s>" % vtt_time(rng, rng.choice([b, e, (b + e) // 2, b + 1, max(0, b - 1), e + 1000])))
         else: out.append(pick(rng, ["&amp;", "&lt;", "&gt;", "&lrm;", "&rlm;", "&nbsp;", "&#x41;", "&bogus;", "&amp"]))
